@@ -154,12 +154,16 @@ pub struct Names {
     pub tables: Vec<String>,
     pub aliases: Vec<String>,
     pub rel_aliases: Vec<String>,
+    /// display names of the key column and of the 7 catalogue columns (a b k s x f u)
+    pub id: String,
+    pub cols: Vec<String>,
+    pub lets: Vec<String>,
 }
 
 pub const HAZARD_NAMES: &[&str] = &[
     "select", "order", "group", "from", "table", "user", "a b", "A", "Mixed", "é", "naïve col",
-    "x\"y", "it's", "1st", "table_0", "table_1", "table_2", "_expr_0", "_expr_1", "_expr_2", "time",
-    "date", "end", "limit", "all", "union", "key", "value", "UPPER",
+    "x\"y", "it's", "1st", "table_0", "table_1", "table_2", "_expr_0", "_expr_1", "_expr_2", "where",
+    "having", "end", "limit", "offset", "union", "key", "value", "UPPER",
 ];
 
 impl Names {
@@ -168,6 +172,9 @@ impl Names {
             tables: vec!["t1".into(), "t2".into(), "t3".into(), "t4".into()],
             aliases: (0..40).map(|i| format!("c{i}")).collect(),
             rel_aliases: (0..12).map(|i| format!("r{i}")).collect(),
+            id: "id".into(),
+            cols: COLS.iter().map(|(n, _)| n.to_string()).collect(),
+            lets: (0..4).map(|i| format!("l{i}")).collect(),
         }
     }
 }
@@ -285,7 +292,7 @@ impl<'t, 'd> Gen<'t, 'd> {
             let mut cols: Vec<Column> = vec![];
             if keyed {
                 cols.push(Column {
-                    name: "id".into(),
+                    name: self.names.id.clone(),
                     ty: Ty::Int,
                 });
             }
@@ -299,7 +306,7 @@ impl<'t, 'd> Gen<'t, 'd> {
                 let j = self.t.weighted(&vec![3u32; pool.len()][..]);
                 let ci = pool.remove(j);
                 cols.push(Column {
-                    name: COLS[ci].0.into(),
+                    name: self.names.cols[ci].clone(),
                     ty: COLS[ci].1,
                 });
             }
@@ -312,10 +319,10 @@ impl<'t, 'd> Gen<'t, 'd> {
             for r in 0..nrows {
                 let mut row = vec![];
                 for c in &cols {
-                    if c.name == "id" {
+                    if c.name == self.names.id {
                         row.push(Val::Int(r as i64 + 1));
                     } else {
-                        row.push(gen_val(self.t, c.ty, true, c.name == "k"));
+                        row.push(gen_val(self.t, c.ty, true, c.name == self.names.cols[2]));
                     }
                 }
                 rows.push(row);
@@ -339,8 +346,8 @@ impl<'t, 'd> Gen<'t, 'd> {
                     name: Some(c.name.clone()),
                     rel: Some(rel.to_string()),
                     ty: c.ty,
-                    unique: c.name == "id",
-                    nullable: c.name != "id",
+                    unique: c.name == self.names.id,
+                    nullable: c.name != self.names.id,
                     deps: vec![],
                     is_const: false,
                     computed: false,
@@ -1344,7 +1351,6 @@ impl<'t, 'd> Gen<'t, 'd> {
     /// a source to join/append with, and its frame
     fn gen_right_source(&mut self, left: &Frame, depth: usize) -> (Source, Frame) {
         let left_rels: Vec<String> = left.cols.iter().filter_map(|c| c.rel.clone()).collect();
-        let _ = depth;
         let kind = self.t.weighted(&[
             if self.wild_prog { 6 } else { 0 },
             if self.lets.is_empty() { 0 } else { 3 },
@@ -1383,6 +1389,15 @@ impl<'t, 'd> Gen<'t, 'd> {
                 if self.t.chance(1, 3) {
                     let e = self.expr(&f, Ty::Bool, 1);
                     steps.push(Step::Filter(e));
+                }
+                if depth > 0 && self.t.chance(1, 5) {
+                    // a sub-pipeline nested inside the sub-pipeline (join or append operand)
+                    let saved = self.in_sub;
+                    self.in_sub = true;
+                    let mut o2 = Ord::default();
+                    let js = self.gen_join(&mut f, &mut o2, depth - 1);
+                    self.in_sub = saved;
+                    steps.extend(js);
                 }
                 steps.push(self.gen_select(&mut f));
                 if self.haz("sorted_let") && self.t.chance(1, 4) {
@@ -1608,7 +1623,7 @@ impl<'t, 'd> Gen<'t, 'd> {
             let lowcard: Vec<&(usize, String)> = refs
                 .iter()
                 .filter(|(i, _)| {
-                    matches!(frame.cols[*i].name.as_deref(), Some("k") | Some("f") | Some("s"))
+                    frame.cols[*i].name.as_ref().map(|n| n == &self.names.cols[2] || n == &self.names.cols[5] || n == &self.names.cols[3]).unwrap_or(false)
                 })
                 .collect();
             let (i, text) = if !lowcard.is_empty() && self.t.chance(2, 3) {
@@ -2091,7 +2106,7 @@ impl<'t, 'd> Gen<'t, 'd> {
             let mut items = vec![];
             let mut nf = Frame::default();
             for i in 0..frame.cols.len() {
-                if frame.cols[i].name.as_deref() != Some("id") && self.t.chance(1, 6) {
+                if frame.cols[i].name.as_ref() != Some(&self.names.id) && self.t.chance(1, 6) {
                     continue;
                 }
                 if let Some(text) = self.ref_text(&frame, i) {
@@ -2153,7 +2168,7 @@ impl<'t, 'd> Gen<'t, 'd> {
             self.in_sub = true;
             let (pipe, frame, ord) = self.gen_pipeline(ns, 0);
             self.in_sub = false;
-            let name = format!("l{i}");
+            let name = self.names.lets.get(i).cloned().unwrap_or_else(|| format!("l{i}"));
             self.lets.push(LetDef {
                 name,
                 pipe,
